@@ -589,9 +589,23 @@ fn account(
     }
 }
 
-/// `only_bound2`: run just the pair exploration (thorough tier, small
-/// circuit) — scheduled last so that a wall cap cuts into it first.
-fn explore_subject(run: &mut Run, tier: Tier, id: &str, deadline: Instant, only_bound2: bool) -> Option<SubjectReport> {
+/// The exploration of one circuit is split into parts so that a wall cap cuts
+/// into the optional parts (scheduled last) first.
+#[derive(Clone, Copy, PartialEq, Eq, Debug)]
+enum Part {
+    /// mandatory: bound 0, thread sweep, whole-run policies, bound 1 on the
+    /// selected choice points (g5: all; larger circuits: class
+    /// representatives [+ stride])
+    Main,
+    /// optional (thorough, g9): bound 1 on every remaining choice point, at 1
+    /// and at 4 threads
+    Rest1,
+    /// optional (thorough, g5): pairs of choice points
+    Bound2,
+}
+
+fn explore_subject(run: &mut Run, tier: Tier, id: &str, deadline: Instant, part: Part) -> Option<SubjectReport> {
+    let only_bound2 = part != Part::Main; // skip everything but the part's own batch
     let t_start = Instant::now();
     let subj = subjects::subject(id);
     let pp = subjects::pp_for(&subj);
@@ -697,24 +711,22 @@ fn explore_subject(run: &mut Run, tier: Tier, id: &str, deadline: Instant, only_
     let fft_regions = |e: &Exec| e.rt.iter().map(|t| t.regions.iter().filter(|r| r.file.contains("fft/domain.rs")).count()).sum::<usize>();
     let nt_queries: u64 = ref1.rt.iter().map(|t| t.num_threads_queries).sum();
 
-    let full1 = match (tier, id) {
-        (_, "g5") => true,
-        (Tier::Thorough, "g9") => true,
-        _ => false,
-    };
+    let full1 = id == "g5";
     let stride: usize = match (tier, id) {
         (Tier::Quick, _) => 9,
         (Tier::Thorough, "g10") => 29,
-        _ => 0, // class representatives only
+        _ => 0, // class representatives only (g9 thorough: the rest follows in Part::Rest1)
     };
-    let select = |pts: &[Point], only_new_vs: Option<&BTreeSet<String>>| -> (Vec<Point>, usize) {
+    // returns (selected for Part::Main, the rest)
+    let select = |pts: &[Point], only_new_vs: Option<&BTreeSet<String>>| -> (Vec<Point>, Vec<Point>) {
         let mut seen_class: BTreeSet<String> = BTreeSet::new();
         let mut out = vec![];
+        let mut rest = vec![];
         for (i, p) in pts.iter().enumerate() {
             let fresh = seen_class.insert(p.class.clone());
             let is_new = only_new_vs.map(|c| !c.contains(&p.class)).unwrap_or(true);
             let take = if full1 {
-                only_new_vs.is_none() || tier == Tier::Thorough || is_new
+                only_new_vs.is_none() || is_new
             } else if only_new_vs.is_some() {
                 fresh && is_new
             } else {
@@ -725,32 +737,40 @@ fn explore_subject(run: &mut Run, tier: Tier, id: &str, deadline: Instant, only_
             };
             if take {
                 out.push(p.clone());
+            } else {
+                rest.push(p.clone());
             }
         }
-        (out, pts.len())
+        (out, rest)
     };
-    let (sel1, tot1) = select(&p1, None);
-    let (sel4, tot4) = if same_shape { (vec![], p4.len()) } else { select(&p4, Some(&classes1)) };
+    let (tot1, tot4) = (p1.len(), p4.len());
+    let (mut sel1, rest1) = select(&p1, None);
+    let (mut sel4, rest4) = if same_shape { (vec![], vec![]) } else { select(&p4, Some(&classes1)) };
+    if part == Part::Rest1 {
+        sel1 = rest1;
+        sel4 = rest4;
+    }
     let n_classes1 = classes1.len();
     let classes4: BTreeSet<String> = p4.iter().map(|p| p.class.clone()).collect();
     let covered_classes: BTreeSet<String> = sel1.iter().chain(sel4.iter()).map(|p| p.class.clone()).collect();
     let mut b1 = bound1(&sel1, 1);
     b1.extend(bound1(&sel4, 4));
-    if only_bound2 {
+    if part == Part::Bound2 {
         b1.clear();
     }
     let b1_total = b1.len();
-    let b1_mandatory = tier == Tier::Quick || full1;
-    let b1_ran = do_batch(run, "bound 1", b1_mandatory, b1, &mut seen, &mut capped);
-    let bound1_exhaustive = full1 && b1_ran == b1_total;
-    if !bound1_exhaustive && !only_bound2 {
+    let b1_ran = do_batch(run, "bound 1", part == Part::Main, b1, &mut seen, &mut capped);
+    // every choice point of the circuit (at 1 thread, and at 4 threads those
+    // that exist only there) has been deviated with every applicable policy
+    let bound1_exhaustive = (full1 || part == Part::Rest1) && b1_ran == b1_total;
+    if !bound1_exhaustive && part != Part::Bound2 && !(part == Part::Main && tier == Tier::Thorough && id == "g9") {
         run.exhaustive = false;
     }
 
     // ---- bound 2 (pairs of choice points), thorough tier, small circuit
     let mut b2_total = 0usize;
     let mut b2_ran = 0usize;
-    if only_bound2 {
+    if part == Part::Bound2 {
         // reduced alphabet per choice point: rayon {Reverse | BBeforeA,
         // RotateBy1, Halves (sum)}, hashmap {ReverseInsertion, Shuffle1}
         let keep = |c: &Choice| {
@@ -800,8 +820,10 @@ fn explore_subject(run: &mut Run, tier: Tier, id: &str, deadline: Instant, only_
     report_found(run, &mut found);
 
     // ---- vacuity gates
-    run.gate(&format!("{}: >=1 region with >=2 tasks was permuted", id), any_r || (only_bound2 && b2_ran == 0));
-    run.gate(&format!("{}: >=1 hash-map site with >=2 entries was permuted", id), any_s || (only_bound2 && b2_ran == 0));
+    if part == Part::Main {
+        run.gate(&format!("{}: >=1 region with >=2 tasks was permuted", id), any_r);
+        run.gate(&format!("{}: >=1 hash-map site with >=2 entries was permuted", id), any_s);
+    }
     let regions_ref: usize = ref1.rt.iter().map(|t| t.regions.len()).sum();
     let sites_ref: usize = ref1.ht.iter().map(|t| t.sites.len()).sum();
     if subj.log_n >= 9 && !only_bound2 {
@@ -838,7 +860,9 @@ fn explore_subject(run: &mut Run, tier: Tier, id: &str, deadline: Instant, only_
     }
     let rep = json!({
         "circuit": id,
-        "part": if only_bound2 { "bound 2 (pairs of choice points)" } else { "bound 0, thread sweep, global policies, bound 1" },
+        "part": match part { Part::Main => "bound 0, thread sweep, global policies, bound 1 on selected choice points",
+                             Part::Rest1 => "bound 1 on all remaining choice points (1 and 4 threads)",
+                             Part::Bound2 => "bound 2 (pairs of choice points)" },
         "constraints": reference.constraints,
         "domain_log2": subj.log_n,
         "rng_draws": reference.rng_draws,
@@ -857,7 +881,8 @@ fn explore_subject(run: &mut Run, tier: Tier, id: &str, deadline: Instant, only_
         "classes_covered_by_bound1": covered_classes.len(),
         "bound1": {"points_selected_t1": sel1.len(), "points_selected_t4": sel4.len(), "schedules": b1_total, "ran": b1_ran,
                    "full": bound1_exhaustive,
-                   "selection": if full1 { "every choice point x every applicable policy (t=1; at t=4 every choice point on thorough, else those of classes absent at t=1)".to_string() }
+                   "selection": if part == Part::Rest1 { "every choice point not taken by the main part, at 1 and at 4 threads, x every applicable policy".to_string() }
+                                else if full1 { "every choice point x every applicable policy (at 1 thread; at 4 threads those of classes absent at 1 thread)".to_string() }
                                 else { format!("one representative per (phase,kind,location,size) class + every {}th choice point, x every applicable policy", stride) }},
         "bound2": {"schedules": b2_total, "ran": b2_ran},
         "schedules_generated": all_scheds,
@@ -954,16 +979,18 @@ pub fn main(tier: Tier, replay: Option<Value>) -> i32 {
             run.machinery(format!("cap hit before the mandatory part finished (circuit {} not explored)", id));
             break;
         }
-        if let Some(r) = explore_subject(&mut run, tier, id, deadline, false) {
+        if let Some(r) = explore_subject(&mut run, tier, id, deadline, Part::Main) {
             reports.push(r.json);
         }
     }
     if tier == Tier::Thorough {
-        if Instant::now() > deadline {
-            run.capped = Some("wall cap reached before bound 2".into());
-            run.exhaustive = false;
-        } else if let Some(r) = explore_subject(&mut run, tier, "g5", deadline, true) {
-            reports.push(r.json);
+        for (id, part) in [("g9", Part::Rest1), ("g5", Part::Bound2)] {
+            if Instant::now() > deadline {
+                run.capped = Some(format!("wall cap reached before {:?} of {}", part, id));
+                run.exhaustive = false;
+            } else if let Some(r) = explore_subject(&mut run, tier, id, deadline, part) {
+                reports.push(r.json);
+            }
         }
     }
     run.bound("circuits", json!(ids));
@@ -972,7 +999,7 @@ pub fn main(tier: Tier, replay: Option<Value>) -> i32 {
     run.bound("rayon_policies", json!(rc::Policy::ALL.iter().map(|p| p.name()).collect::<Vec<_>>()));
     run.bound("hashmap_orders", json!(hc::Order::ALL.iter().map(|p| p.name()).collect::<Vec<_>>()));
     run.bound("deviation_bound", json!(match tier { Tier::Quick => "0, thread sweep, global policies, 1 (g5 full; g9 class representatives + stride)",
-        Tier::Thorough => "0, thread sweep, global policies, 1 (g5, g9 full; g10, g12 class representatives), 2 (g5)" }));
+        Tier::Thorough => "0, thread sweep, global policies, 1 (g5 full; g9, g10, g12 class representatives [g10 + stride]); then, optional under the wall cap: 1 on all remaining choice points of g9, 2 (g5, reduced alphabet)" }));
     run.bound("wall_cap_s", json!(cap_s));
     run.extra.insert("per_circuit".into(), json!(reports));
     run.extra.insert("interior_state_scan".into(), interior_state_scan());
